@@ -55,6 +55,9 @@ def main():
                 engine_error = r['error']
                 break
             allv.extend(v for v in r['violations'] if v['prop'] == prop)
+            if prop == 'C13':
+                # totality: every path that ends in a panic of repository code is a violation
+                allv.extend(v for v in r['panics'] if v.get('prop', 'C13') == 'C13')
             if r['tv_bad']:
                 engine_error = 'translator validation disagreement: %s' % json.dumps(r['tv_bad'][0])[:1500]
                 break
@@ -116,7 +119,7 @@ def main():
     # ---- report
     print('property=%s tier=%s paths=%d hook_paths=%d obligations=%d queries=%d solver=%.1fs tv=%d wall=%.1fs' % (prop, tier, paths, ev['coverage']['paths_with_hook'], ev['coverage']['obligations'], ev['coverage']['solver_queries'], ev['coverage']['solver_time_s'], ev['coverage']['traces_validated_against_impl'], wall))
     for role, k, n, w in known_roles:
-        print('KNOWN-FINDING: property=%s %s (%s; %d paths%s)' % (prop, role, k.get('what', ''), n, '; e.g. ' + w['input'].replace('\n', ' ') if w else ''))
+        print('KNOWN-FINDING: property=%s %s (%s; %d paths%s)' % (prop, role, k.get('what', ''), n, '; e.g. ' + (w.get('input') or '').replace('\n', ' ') if w else ''))
     if engine_error:
         print('INCONCLUSIVE property=%s %s' % (prop, engine_error[:3000]))
         return 2
@@ -128,12 +131,12 @@ def main():
         for i, (role, vs, w) in enumerate(new_roles):
             rec = {'property': prop, 'role': role, 'detail': vs[0]['detail'], 'paths': len(vs), 'trace': vs[0]['trace']}
             if w:
-                rec.update({'input': w['input'], 'config': w['config'], 'predicted_output': w['predicted_output'], 'native_output': w.get('native_output'), 'native': w.get('native'), 'reproduced': w['agree']})
+                rec.update({'input': w.get('input'), 'config': w.get('config'), 'predicted_output': w.get('predicted_output'), 'native_output': w.get('native_output'), 'native': w.get('native'), 'reproduced': w.get('agree'), 'note': w.get('note'), 'file': w.get('file'), 'stubs': w.get('stubs')})
             q = next((v.get('query') for v in vs if v.get('query')), None)
             if q:
                 rec['query'] = q
             d = runner.write_replay(prop, i, rec)
-            print('VIOLATION property=%s replay=%s   # %s: %s | input: %s' % (prop, d, role, vs[0]['detail'], (w['input'].replace('\n', ' ') if w else '?')))
+            print('VIOLATION property=%s replay=%s   # %s: %s | input: %s' % (prop, d, role, vs[0]['detail'], ((w.get('input') or '?').replace('\n', ' ') if w else '?')))
         return 1
     print('OK property=%s' % prop)
     return 0
